@@ -109,35 +109,40 @@ Section WithCode.
     | op :: t => match w_step op w with Ok w' => w_run t w' | Err => Err | Panic => Panic end
     end.
 
-  (** ** keeper.InitGenesis interpreted from its statement list ([fa] = the decoded `from` address once
+  (** ** keeper.InitGenesis interpreted from its (guarded) statement list ([fa] = the decoded `from` address once
       IParseFrom has run). *)
   Variable module : bytes.
 
-  Fixpoint init_steps (steps : list istep) (g : genesis) (fa : option nat) (w : world) : outcome world :=
+  Definition from_empty (g : genesis) : bool := match g_from g with FromEmpty => true | _ => false end.
+
+  Fixpoint init_steps (steps : list (bool * istep)) (g : genesis) (fa : option nat) (w : world) : outcome world :=
     match steps with
     | [] => Ok w
-    | ISetParams :: t =>
-        match set_param_set pairs lgs cgs (g_enable g) (g_rewards g) (w_ps w) with
-        | Ok s' => init_steps t g fa {| w_accts := w_accts w; w_sup := w_sup w; w_ps := s'; w_height := w_height w |}
-        | Err => Err
-        | Panic => Panic
-        end
-    | IStopIfNoFrom :: t => match g_from g with FromEmpty => Ok w | _ => init_steps t g fa w end
-    | IParseFrom :: t => match g_from g with FromAcct i => init_steps t g (Some i) w | _ => Panic end
-    | ISendToModule m :: t =>
-        if negb (bytes_eqb m module) then Err else
-        match fa with
-        | None => Err
-        | Some i =>
-            match bank_send (w_accts w) i A_POOL (g_init g) with
-            | Ok a => init_steps t g fa (with_accts w a)
-            | _ => Panic
+    | (only_with_from, st) :: t =>
+        if only_with_from && from_empty g then init_steps t g fa w else
+        match st with
+        | ISetParams =>
+            match set_param_set pairs lgs cgs (g_enable g) (g_rewards g) (w_ps w) with
+            | Ok s' => init_steps t g fa {| w_accts := w_accts w; w_sup := w_sup w; w_ps := s'; w_height := w_height w |}
+            | Err => Err
+            | Panic => Panic
             end
+        | IParseFrom => match g_from g with FromAcct i => init_steps t g (Some i) w | _ => Panic end
+        | ISendToModule m =>
+            if negb (bytes_eqb m module) then Err else
+            match fa with
+            | None => Err
+            | Some i =>
+                match bank_send (w_accts w) i A_POOL (g_init g) with
+                | Ok a => init_steps t g fa (with_accts w a)
+                | _ => Panic
+                end
+            end
+        | IUnknown _ => Err
         end
-    | IUnknown _ :: _ => Err
     end.
 
-  Definition init_genesis (steps : list istep) (g : genesis) (w : world) : outcome world := init_steps steps g None w.
+  Definition init_genesis (steps : list (bool * istep)) (g : genesis) (w : world) : outcome world := init_steps steps g None w.
 
   (** keeper.ExportGenesis (shape EParamsOnly): the parameters, From "" and no InitReward. *)
   Definition export_genesis (sh : eshape) (w : world) : outcome genesis :=
